@@ -11,7 +11,7 @@ from engine.contract import Contract, Case, raise_
 from engine.sx import LoopSpec
 from engine import values as V
 from engine.values import U
-from engine.logic import I, Idx, B, R, Mono, Shp, DT, inshape, expo, mzero, ndim
+from engine.logic import I, Idx, B, R, Mono, Shp, DT, Name, inshape, expo, mzero, ndim
 from engine.polymodel import (Poly, Arr, ExpMat, MonoRow, NamesV, Region, Names, nlen, nat, shape_axioms, mono_axioms,
                               mono_zero, has_duplicate_rows, DTypeV, ShapeV, shp0, dt_int, as_dtype, ColSel)
 from engine.sortmodel import meq, order_axioms
@@ -333,12 +333,24 @@ class NdpolyNew(Contract):
         elif isinstance(names, Poly):
             nm = names.names
             ex.oblige(f"pre({site}).names_match_width", nlen(nm) == E.D, "precondition", node)
+        elif isinstance(names, tuple) and names and all(isinstance(x, z3.ExprRef) and x.sort() == Name for x in names):
+            # a literal tuple of names
+            from engine.polymodel import nat
+            nm = ctx.const("names_tuple", Names)
+            ctx.assume(z3.And(nlen(nm) == len(names), *[nat(nm, d) == x for d, x in enumerate(names)]))
+            ex.oblige(f"pre({site}).names_match_width", nlen(nm) == E.D, "precondition", node)
+            ex.oblige(f"pre({site}).names_distinct", names_distinct(ctx, nm), "precondition", node)
         else:
             raise U("ndpoly(...) with these names", node)
         if isinstance(shape, tuple) and not shape:
             shp = shp0
         elif isinstance(shape, ShapeV):
             shp = shape.term
+        elif isinstance(shape, tuple) and len(shape) == 1 and isinstance(shape[0], (int, z3.ArithRef)) and not isinstance(shape[0], bool):
+            from engine.polymodel import prepend
+            shp = prepend(shape[0], shp0)            # the 1-d shape (n,)
+            ex.oblige(f"pre({site}).extent_not_negative", shape[0] >= 0 if not isinstance(shape[0], int) else z3.BoolVal(shape[0] >= 0),
+                      "precondition", node)
         else:
             raise U("ndpoly(...) with this shape", node)
         dt = dt_int if dtype is None else as_dtype(ex, dtype, node)
@@ -347,6 +359,7 @@ class NdpolyNew(Contract):
                  region=Region("fresh", "ndpoly()"), init=lambda t, i: z3.BoolVal(False))
         p.owndata = z3.BoolVal(True)
         p.allocation = allocation if allocation is not None else 2 * E.n
+        p.built_from_exponents = E
         hook = getattr(ex, "hooks", {}).get("after_ndpoly") if isinstance(getattr(ex, "hooks", None), dict) else None
         if hook:
             hook(ex, p)
